@@ -34,7 +34,7 @@ Proof.
   destruct wrap.
   - destruct (ner_net_tree_gen (adjacent (perfect w h)) src dests w h true radius s sok
                                (geom_torus w h Hw Hh) Hsrc Hd Hs)
-      as [t [route [E [Hroot [Hnd [Hhops [Hdest [Hroute Hrange]]]]]]]].
+      as [t [route [E [Hroot [Hnd [Hhops [Hdest [Hroute [Hrange Hnl]]]]]]]]].
     exists t, route. split; [exact E|]. split; [exact Hroot|]. split; [exact Hnd|].
     split; [|split; [exact Hdest | exact Hroute]].
     intros p r c Hin. destruct (Hhops p r c Hin) as [l [Hr Hadj]]. exists l. split; [exact Hr|].
@@ -46,7 +46,7 @@ Proof.
     + destruct Hadj as [dx [dy [Hv Hc]]]. exists dx, dy. split; [exact Hv|]. exact Hc.
   - destruct (ner_net_tree_gen (mesh_adjacent w h) src dests w h false radius s sok
                                (geom_mesh w h Hw Hh) Hsrc Hd Hs)
-      as [t [route [E [Hroot [Hnd [Hhops [Hdest [Hroute Hrange]]]]]]]].
+      as [t [route [E [Hroot [Hnd [Hhops [Hdest [Hroute [Hrange Hnl]]]]]]]]].
     exists t, route. split; [exact E|]. split; [exact Hroot|]. split; [exact Hnd|].
     split; [|split; [exact Hdest | exact Hroute]].
     intros p r c Hin. destruct (Hhops p r c Hin) as [l [Hr [dx [dy [Hv [Hc Hcr]]]]]]. exists l.
@@ -96,3 +96,44 @@ Lemma ex_check_tree :
   /\ check_connected {| rm_w := 2; rm_h := 1; rm_dead_chips := [];
                         rm_dead_links := [((0, 0), 0); ((0, 0), 1); ((0, 0), 3); ((0, 0), 4)] |} = false.
 Proof. repeat split; vm_compute; reflexivity. Qed.
+
+(* ------------------------------------------------------------------------------------------------
+   History (repaired in /repo by commit c75fe85): avoid_dead_links as found looked for the parent of a
+   node crossed by the A* detour only among the nodes still below the orphaned root.  When the detour had
+   already severed an ancestor of that node, the node kept its old parent and was attached a second time.
+   Witness: 3 x 4 mesh with five further dead links, source (0, 3), sink (2, 0). *)
+Definition ex_dup_machine : rmachine :=
+  {| rm_w := 3; rm_h := 4; rm_dead_chips := [];
+     rm_dead_links :=
+       [((0, 0), 0); ((0, 0), 3); ((0, 0), 4); ((0, 0), 5); ((0, 1), 3); ((0, 1), 4); ((0, 1), 5);
+        ((0, 2), 3); ((0, 2), 4); ((0, 3), 1); ((0, 3), 2); ((0, 3), 3); ((0, 3), 4); ((1, 0), 4);
+        ((1, 0), 5); ((1, 1), 4); ((1, 3), 1); ((1, 3), 2); ((2, 0), 0); ((2, 0), 1); ((2, 0), 4);
+        ((2, 0), 5); ((2, 1), 0); ((2, 1), 1); ((2, 2), 0); ((2, 2), 1); ((2, 3), 0); ((2, 3), 1);
+        ((2, 3), 2)] |}.
+
+Definition ex_dup_order : option (list (chip * chip)) :=
+  Some [((0, 0), (1, 0)); ((0, 1), (0, 0))].
+
+Definition occurrences (c : chip) (l : list chip) : nat := length (filter (chip_eqb c) l).
+
+Lemma repair_duplicate_child_orig_refuted :
+  exists t route f,
+    (* the tree ner_net builds for this net: valid on the fault-free mesh *)
+    ner_net (0, 3) [(0, 3); (2, 0)] 3 4 (has_wrap ex_dup_machine) 20 [0] = Ok (t, route)
+    /\ check_connected ex_dup_machine = true
+    (* the repair of the code as found returns a forest whose first tree lists chip (1, 0) twice *)
+    /\ avoid_dead_links_orig t ex_dup_machine (has_wrap ex_dup_machine) ex_dup_order = Ok f
+    /\ (2 <= occurrences (1, 0)%Z (forest_chips f))%nat
+    (* the repaired code (c75fe85) returns a tree accepted by the validator *)
+    /\ exists f', avoid_dead_links t ex_dup_machine (has_wrap ex_dup_machine) ex_dup_order = Ok f'
+                  /\ match f' with
+                     | t' :: _ => check_tree ex_dup_machine (0, 3) [] t' = true
+                     | [] => False
+                     end.
+Proof.
+  eexists. eexists. eexists. split; [vm_compute; reflexivity|].
+  split; [vm_compute; reflexivity|].
+  split; [vm_compute; reflexivity|].
+  split; [vm_compute; lia|].
+  eexists. split; [vm_compute; reflexivity|]. vm_compute. reflexivity.
+Qed.
